@@ -57,6 +57,108 @@ def factor_graph_adj(desc):
     return adj
 
 
+def _approx(costs, prev, stab):
+    """The documented cut-off test: every entry equal, or changed by less than `stab` relatively to the mean of the
+    two values."""
+    if prev is None:
+        return False
+    for d, c in costs.items():
+        p = prev.get(d)
+        if p is None:
+            return False
+        if p != c and (p + c == 0 or not (2 * abs(p - c) / abs(p + c) < stab)):
+            return False
+    return True
+
+
+class CutoffMonitor:
+    """Watches, on the wire, what the stability cut-off suppresses.  Documented behaviour: a computation may skip
+    the message to a neighbour only if what it would send differs by less than `stability` (relatively, entry by
+    entry) from the last message it really SENT to that neighbour.  The message it would send is recomputed with the
+    module's own public message functions from the messages the harness saw delivered - the monitor says nothing
+    about the arithmetic, only about the decision to stay silent.  Used to tell the listed finding
+    C05-stability-cutoff (the cut-off works as documented and freezes propagation too early) from any other way of
+    ending on a wrong assignment with stability > 0."""
+
+    def __init__(self, r, algo, stab, mode):
+        from importlib import import_module
+        self.ms = import_module("pydcop.algorithms.maxsum")
+        self.r, self.algo, self.stab, self.mode = r, algo, stab, mode
+        self.recv = {n: {} for n in r.comps}
+        self.last_sent = {}
+        self.deviations = []
+        self.seen = 0
+        self.kind, self.obj, self.targets = {}, {}, {}
+        for n, c in r.comps.items():
+            node = c.computation_def.node
+            if hasattr(node, "factor"):
+                self.kind[n], self.obj[n] = "factor", node.factor
+                self.targets[n] = [v.name for v in node.factor.dimensions]
+            else:
+                self.kind[n], self.obj[n] = "variable", node.variable
+                self.targets[n] = [l.factor_node for l in node.links]
+
+    def absorb_trace(self):
+        """Record what was posted since the last call -> {(src, dst): costs} posted in that span."""
+        now = {}
+        trace = self.r.net.trace
+        for seq, step, src, dst, msg, _ in trace[self.seen:]:
+            if getattr(msg, "type", None) == "max_sum":
+                self.last_sent[(src, dst)] = dict(msg.costs)
+                now[(src, dst)] = True
+        self.seen = len(trace)
+        return now
+
+    def would_send(self, n, t):
+        if self.kind[n] == "factor":
+            var = [v for v in self.obj[n].dimensions if v.name == t][0]
+            return self.ms.factor_costs_for_var(self.obj[n], var, self.recv[n], self.mode)
+        return self.ms.costs_for_factor(self.obj[n], t, self.targets[n], self.recv[n])
+
+    def evaluated(self, n, targets, posted, where):
+        for t in targets:
+            if (n, t) in posted:
+                continue
+            w = self.would_send(n, t)
+            if not _approx(w, self.last_sent.get((n, t)), self.stab):
+                self.deviations.append("%s stayed silent towards %s %s although it would send %r and the last message "
+                                       "it sent there is %r" % (n, t, where, w, self.last_sent.get((n, t))))
+
+    # synchronous Max-Sum: one evaluation of every neighbour per cycle
+    def wrap_sync(self, n, c):
+        orig = c.on_new_cycle
+
+        def on_new_cycle(messages, cycle_id):
+            self.absorb_trace()
+            for sender, (message, _) in messages.items():
+                self.recv[n][sender] = dict(message.costs)
+            res = orig(messages, cycle_id)
+            posted = self.absorb_trace()
+            if not self.deviations:
+                self.evaluated(n, self.targets[n], posted, "in cycle %s" % cycle_id)
+            return res
+        c.on_new_cycle = on_new_cycle
+
+    # asynchronous A-Max-Sum: one evaluation per delivered message (never towards its sender)
+    def after_async_step(self, net, act):
+        if act[0] not in ("deliver", "lane"):
+            self.absorb_trace()
+            return
+        _, src, n, _, msg = net.delivered[-1]
+        posted = self.absorb_trace()
+        if getattr(msg, "type", None) != "max_sum" or n not in self.kind or self.deviations:
+            return
+        if not self.r.comps[n].is_running:
+            return   # delivered before the computation started: buffered, handled (and seen here) after its start
+        self.recv[n][src] = dict(msg.costs)
+        if self.kind[n] == "variable":
+            targets = [t for t in self.targets[n] if t != src]
+        else:
+            targets = [t for t in self.targets[n] if t != src and
+                       all(o in self.recv[n] for o in self.targets[n] if o != t)]
+        self.evaluated(n, targets, posted, "after the message of %s (step %d)" % (src, net.step))
+
+
 def run_case(case):
     desc, algo = case["dcop"], case["algo"]
     labels = ["algo:" + algo, "obj:" + desc["objective"], "start:" + case["params"]["start_messages"],
@@ -69,15 +171,26 @@ def run_case(case):
     nontrivial = len(desc["variables"]) >= 3 and diam >= 4
     labels.append("diam:%d" % min(diam, 8))
     rounds = 2 * diam + 2 * SAME_COUNT + 4
+    monitor = []
     try:
         def prep(r):
+            mon = None
+            if case["params"]["stability"] > 0:
+                r.net.trace = []
+                mon = CutoffMonitor(r, algo, case["params"]["stability"], desc["objective"])
+                monitor.append(mon)
             if algo == "maxsum":
                 with_nb = [c for n, c in r.comps.items() if adj[n]]
+                if mon:
+                    for n, c in r.comps.items():
+                        mon.wrap_sync(n, c)
 
                 def after(net, act):
                     if all(c.cycle_count >= rounds for c in with_nb):
                         net.halt = True
                 r.net.after_step = after
+            elif mon:
+                r.net.after_step = mon.after_async_step
 
         r = localsearch.run_algo(desc, algo, case["params"], case["schedule"], case["seed"], max_steps=300000,
                                  before_run=prep)
@@ -102,9 +215,13 @@ def run_case(case):
                            "(cost %r) after %d steps" % (algo, desc["objective"], case["params"]["start_messages"],
                                                          case["params"]["stability"], a, oracles.total_cost(desc, a),
                                                          args[0], best, net.step),
-                           nontrivial, labels, info={"phase": "optimum", "diam": diam})
+                           nontrivial, labels, info={"phase": "optimum", "diam": diam,
+                                                     "cutoff_deviation": (monitor[0].deviations[0] if monitor and
+                                                                          monitor[0].deviations else None)})
     except UnderTestError as e:
         return Outcome(False, "raised %s at %s" % (e, e.frame), True, labels, info={"exc": e.exc_type})
+    if monitor and monitor[0].deviations:
+        labels.append("cutoff-deviation")
     return Outcome(True, "", nontrivial, labels, info={"steps": net.step, "diam": diam})
 
 
@@ -114,6 +231,8 @@ def classify(case, out):
     costs sit on a large common offset every update is 'small' and propagation freezes before the exact marginals are
     reached.  Matched only when the same case - same DCOP, schedule, start mode - selects the optimum with the
     threshold set to 0, i.e. the cut-off is the only cause."""
+    if (out.info or {}).get("cutoff_deviation"):
+        return None   # the cut-off suppressed something it is not documented to suppress: not the listed finding
     if case["params"].get("stability", 0) > 0 and (out.info or {}).get("phase") == "optimum":
         again = dict(case, params=dict(case["params"], stability=0.0))
         try:
